@@ -31,9 +31,16 @@ spec/HandlerResolution.tla (nearest-ancestor handler resolution over the real cl
     deliberately weakened key (values only, names only, node only, sorted values) are run by TLC on
     the same DAGs: the run is vacuous (machinery error) unless each of them differs from the tree
     recursion somewhere, i.e. unless the judged inputs tell a full key from a weaker one.
-(c) Handler resolution: for every UFL class and handler-name sets drawn from its ancestors, the
+(c) Handler resolution: for every UFL class and handler sets drawn from its ancestors, the
     handler bound by MultiFunction / Transformer / DAGTraverser is compared with Resolve() of the
-    TLA+ module evaluated by TLC on the exported class graph.
+    TLA+ module evaluated by TLC on the exported class graph.  A handler table is a set of attribute
+    NAMES: the module derives the handler name of every type from its class name (HandlerName:
+    TypeName -> type_name; laws checked by TLC for every name over a small alphabet of capitals,
+    lower-case letters and digits) and the tables are built under THOSE names, never under the
+    names the code derives.  The type universe is the import-time registry plus late types whose
+    class names vary the alphabet (digits, runs of capitals), registered with @ufl_type in a child
+    process; the name-dispatched handler tables of the library itself (the attribute names of every
+    MultiFunction / Transformer subclass of ufl) are further cases of the same table.
 """
 
 from __future__ import annotations
@@ -42,6 +49,7 @@ import concurrent.futures as cf
 import itertools
 import json
 import random
+import re
 import time
 from types import SimpleNamespace
 
@@ -1029,15 +1037,38 @@ def configs(tier):
 # ==========================================================================================
 
 DISPATCH_CFG = """CONSTANTS Bases <- MCBases
+Names <- MCNames
 Cases <- MCCases
-PreMF <- MCPreMF
-PreTR <- MCPreTR
-PreDT <- MCPreDT
+AttrCases <- MCAttrCases
+AttrMF <- MCAttrMF
+AttrTR <- MCAttrTR
+AttrDT <- MCAttrDT
+Alphabet <- MCAlphabet
+MaxLen = %d
 SPECIFICATION Spec
+INVARIANT NameLawsOK
 INVARIANT LawsOnCases
 INVARIANT LawsOnAllSubsets
 INVARIANT LinearisationOK
 """
+
+# handler names: the laws of HandlerName are checked by TLC for every name over this alphabet up to the length
+NAME_ALPHABET = {"quick": ("AQan20", 4), "thorough": ("AQan20", 6)}
+ATTR_RE = re.compile(r"[a-z][a-z0-9_]*")  # attribute names that can be the handler name of a type
+LATE_MARK = "@@C19-LATE@@"
+LATE_PARENTS = ("Operator", "Terminal", "MathFunction")
+# late types (registered with @ufl_type in a child process): shapes of class names that the import-time registry
+# has once (Atan2: a digit after a lower-case letter) or not at all
+LATE_FIXED = [
+    ("Atan3", "Operator"), ("P2", "Terminal"), ("H1Norm", "Operator"), ("Bessel10K", "MathFunction"),
+    ("FEMNorm", "Operator"), ("ABc", "Operator"), ("XY", "Terminal"), ("Z", "Terminal"), ("NormL2", "Operator"),
+    ("A1b2C3", "MathFunction"), ("Log1p", "MathFunction"), ("Grad2DOf", "Atan3"), ("Q0a", "P2"), ("Sym00", "Operator"),
+    ("X9", "H1Norm"), ("Curl3D", "Operator"),
+]  # fmt: skip
+
+
+def chars(s):
+    return list(s)
 
 
 class _Dummy:
@@ -1050,7 +1081,53 @@ class _Dummy:
         self._ufl_class_ = klass
 
 
-def dispatch_universe():
+def register_late(name, parent):
+    """A new expression type `name` under `parent`, registered with @ufl_type (child process only)."""
+    from ufl.classes import MathFunction, Operator, Terminal
+    from ufl.core.ufl_type import ufl_type
+
+    ns = {"__slots__": (), "__doc__": f"Late type {name}."}
+    if parent is Operator:
+
+        def __init__(self, arg):
+            Operator.__init__(self, (arg,))
+
+        def __str__(self):
+            return f"{type(self).__name__}({self.ufl_operands[0]})"
+
+        ns.update(__init__=__init__, __str__=__str__)
+        kw = dict(num_ops=1, is_scalar=True)
+    elif parent is Terminal:
+
+        def __init__(self):
+            Terminal.__init__(self)
+
+        def ufl_domains(self):
+            return ()
+
+        ns.update(__init__=__init__, ufl_domains=ufl_domains)
+        kw = dict(is_scalar=True)
+    elif parent is MathFunction:
+
+        def __init__(self, arg):
+            MathFunction.__init__(self, name.lower(), arg)
+
+        ns.update(__init__=__init__)
+        kw = dict(is_scalar=True)
+    else:
+        kw = dict(is_scalar=bool(parent._ufl_is_scalar_))
+    if parent._ufl_is_terminal_:
+
+        def __repr__(self):
+            return type(self).__name__
+
+        ns.update(__repr__=__repr__, __str__=__repr__)
+    return ufl_type(**kw)(type(parent)(name, (parent,), ns))
+
+
+def dispatch_universe(late=(), register=False):
+    """The registered classes (typecode order) followed by the late types [name, parent name]: class list
+    (late classes only when `register`), index, direct UFL bases, linearisation, class names."""
     from ufl.core.expr import Expr
     from ufl.core.ufl_type import UFLType
 
@@ -1062,10 +1139,91 @@ def dispatch_universe():
     idx = {c: i + 1 for i, c in enumerate(classes)}
     bases = [[idx[b] for b in c.__bases__ if type(b) is UFLType] for c in classes]
     mro = [[idx[b] for b in c.__mro__ if type(b) is UFLType] for c in classes]
-    return classes, idx, bases, mro
+    names = [c.__name__ for c in classes]
+    if len(set(names)) != len(names):
+        raise MachineryError("class names of the registered types are not unique")
+    for name, parent in late:
+        p = names.index(parent) + 1
+        t = len(names) + 1
+        names.append(name)
+        bases.append([p])
+        mro.append([t] + mro[p - 1])
+        if register:
+            cls = register_late(name, classes[p - 1])
+            if cls._ufl_typecode_ != t - 1 or Expr._ufl_all_classes_[t - 1] is not cls:
+                raise MachineryError("typecode of a late type")
+            classes.append(cls)
+            idx[cls] = t
+    return classes, idx, bases, mro, names
 
 
-def dispatch_cases(classes, mro, seed, tier):
+def base_attrs():
+    from ufl.algorithms.transformer import Transformer
+    from ufl.corealg.dag_traverser import DAGTraverser
+    from ufl.corealg.multifunction import MultiFunction
+
+    return {k: sorted(a for a in dir(b) if ATTR_RE.fullmatch(a)) for k, b in (("MF", MultiFunction), ("TR", Transformer), ("DT", DAGTraverser))}
+
+
+def late_types(names, seed, tier):
+    """Late types [name, parent]: the fixed shapes and random CamelCase names with digits and runs of capitals.
+    No two names (registered ones included) agree up to case, none is an attribute of the algorithm base classes
+    up to underscores (so that, by the Strip law of the spec, all handler names are distinct)."""
+    import keyword
+
+    rng = random.Random(seed * 31337 + 1906)
+    taken = {n.lower() for n in names} | {a.replace("_", "") for v in base_attrs().values() for a in v}
+    out = []
+
+    def add(name, parent):
+        low = name.lower()
+        if low in taken or keyword.iskeyword(low):
+            return
+        taken.add(low)
+        out.append([name, parent])
+
+    for name, parent in LATE_FIXED:
+        add(name, parent)
+    if len(out) != len(LATE_FIXED):
+        raise MachineryError("a fixed late type name collides with a registered name")
+    for _ in range(12 if tier == "quick" else 120):
+        n = rng.randint(2, 7)
+        name = rng.choice("ABCDEFGHIJKLMNOPQRSTUVWXYZ")
+        for _ in range(n - 1):
+            kind = rng.random()
+            name += rng.choice("abcdefghijklmnopqrstuvwxyz") if kind < 0.5 else rng.choice("ABCDEFGHIJKLMNOPQRSTUVWXYZ") if kind < 0.75 else rng.choice("0123456789")
+        add(name, rng.choice(LATE_PARENTS) if rng.random() < 0.7 or not out else rng.choice(out)[0])
+    return out
+
+
+def library_tables():
+    """The name-dispatched handler tables of the library itself: MultiFunction / Transformer subclasses defined in
+    ufl's modules, with their candidate handler attribute names."""
+    import importlib
+    import inspect
+    import pkgutil
+
+    import ufl
+    from ufl.algorithms.transformer import Transformer
+    from ufl.corealg.multifunction import MultiFunction
+
+    found = {}
+    for m in pkgutil.walk_packages(ufl.__path__, "ufl."):
+        try:
+            mod = importlib.import_module(m.name)
+        except ImportError:
+            continue
+        for o in vars(mod).values():
+            if inspect.isclass(o) and o.__module__ == mod.__name__ and issubclass(o, (MultiFunction, Transformer)) and o not in (MultiFunction, Transformer):
+                found[f"{o.__module__}.{o.__qualname__}"] = o
+    out = []
+    for qn in sorted(found):
+        o = found[qn]
+        out.append({"name": qn, "cls": o, "engine": "mf" if issubclass(o, MultiFunction) else "tr", "attrs": sorted(a for a in dir(o) if ATTR_RE.fullmatch(a))})
+    return out
+
+
+def dispatch_cases(n_types, mro, seed, tier):
     rng = random.Random(seed * 7919 + 19)
     cases, seen = [], set()
 
@@ -1086,29 +1244,46 @@ def dispatch_cases(classes, mro, seed, tier):
         for _ in range(k):
             s = [a for a in chain if rng.random() < 0.5]
             if rng.random() < 0.3:
-                s.append(rng.randrange(1, len(classes) + 1))
+                s.append(rng.randrange(1, n_types + 1))
             add(s)
     return cases
 
 
-def observe_dispatch(classes, idx, case):
-    """Build the three algorithm classes defining exactly the handlers of `case`; bound handler per type."""
+def _logger(name, nargs):
+    if nargs == "post":
+        return lambda self, o, *ops: name
+    return lambda self, o: name
+
+
+def _bound(call, dummy, by_name):
+    """Index of the type whose handler `call` binds to the type of `dummy` (0: the ufl_type handler, -1: an
+    attribute that is none of the handlers of the table)."""
+    try:
+        r = call(dummy)
+    except ValueError:  # MultiFunction.undefined / Transformer.undefined = the ufl_type handler
+        r = "ufl_type"
+    except Exception:  # noqa: BLE001
+        return -1
+    if r is dummy:  # Transformer.terminal = Transformer.reuse
+        r = "terminal"
+    if r == "ufl_type":
+        return 0
+    return by_name.get(r, -1) if isinstance(r, str) else -1
+
+
+def observe_dispatch(classes, idx, case, hn):
+    """Build the three algorithm classes defining exactly the handlers of `case`, MultiFunction / Transformer under
+    the handler names `hn` of the SPEC (hn[t-1] for type t); bound handler per type."""
     from functools import singledispatchmethod
 
     from ufl.algorithms.transformer import Transformer
     from ufl.corealg.dag_traverser import DAGTraverser
     from ufl.corealg.multifunction import MultiFunction
 
-    by_name = {c._ufl_handler_name_: idx[c] for c in classes}
-
-    def mk(name, nargs):
-        if nargs == "post":
-            return lambda self, o, *ops: name
-        return lambda self, o: name
-
-    defined = {classes[t - 1]._ufl_handler_name_ for t in case}
-    MF = type("MF", (MultiFunction,), {n: mk(n, "post") for n in defined})
-    TR = type("TR", (Transformer,), {n: mk(n, "pre") for n in defined})
+    by_name = {hn[i]: i + 1 for i in range(len(classes))}
+    defined = {hn[t - 1] for t in case}
+    MF = type("MF", (MultiFunction,), {n: _logger(n, "post") for n in defined})
+    TR = type("TR", (Transformer,), {n: _logger(n, "pre") for n in defined})
 
     class DT(DAGTraverser):
         @singledispatchmethod
@@ -1116,113 +1291,235 @@ def observe_dispatch(classes, idx, case):
             return "ufl_type"
 
     for t in case:
-        DT.process.register(classes[t - 1])(mk(classes[t - 1]._ufl_handler_name_, "pre"))
+        DT.process.register(classes[t - 1])(_logger(hn[t - 1], "pre"))
     mf, tr = MF(), TR()
     disp = DT.__dict__["process"].dispatcher
     got = {"mf": [], "tr": [], "dt": []}
     for c in classes:
         dummy = _Dummy(c)
-        for key, call in (("mf", mf), ("tr", tr.visit)):
-            try:
-                r = call(dummy)
-            except ValueError:  # MultiFunction.undefined / Transformer.undefined = the ufl_type handler
-                r = "ufl_type"
-            if r is dummy:  # Transformer.terminal = Transformer.reuse
-                r = "terminal"
-            got[key].append(by_name.get(r, 0) if r != "ufl_type" else 0)
+        got["mf"].append(_bound(mf, dummy, by_name))
+        got["tr"].append(_bound(tr.visit, dummy, by_name))
         r = disp.dispatch(c)(None, None)
         got["dt"].append(by_name.get(r, 0) if r != "ufl_type" else 0)
     return got
 
 
-def dispatch_tlc(seed, tier):
-    """Export the class graph and the cases, let TLC check the laws and print the predicted table."""
+def observe_library(classes, lib, defs, hn):
+    """A handler table of the library: which of ITS handlers is bound to every type.  The handlers (the attributes
+    that are handler names of the spec, `defs` = their types) are overridden by loggers in a subclass, which is
+    initialised as the algorithm base class only."""
     from ufl.algorithms.transformer import Transformer
-    from ufl.corealg.dag_traverser import DAGTraverser
     from ufl.corealg.multifunction import MultiFunction
 
-    classes, idx, bases, mro = dispatch_universe()
-    names = {c._ufl_handler_name_: idx[c] for c in classes}
-    if len(names) != len(classes):
-        raise MachineryError("handler names are not unique")
-    pre = {k: sorted(names[n] for n in names if hasattr(base, n)) for k, base in (("MF", MultiFunction), ("TR", Transformer), ("DT", DAGTraverser))}
-    cases = dispatch_cases(classes, mro, seed, tier)
+    by_name = {hn[i]: i + 1 for i in range(len(classes))}
+    post = "post" if lib["engine"] == "mf" else "pre"
+    ns = {hn[t - 1]: _logger(hn[t - 1], post) for t in defs}
+    ns["ufl_type"] = _logger("ufl_type", post)
+    W = type("W_" + lib["cls"].__name__, (lib["cls"],), ns)
+    obj = W.__new__(W)
+    (MultiFunction if lib["engine"] == "mf" else Transformer).__init__(obj)
+    call = obj if lib["engine"] == "mf" else obj.visit
+    return [_bound(call, _Dummy(c), by_name) for c in classes]
+
+
+def late_child():
+    """Child process: register the late types, observe the cases that involve them (stdin/stdout: JSON)."""
+    import sys
+
+    req = json.load(sys.stdin)
+    classes, idx, bases, mro, names = dispatch_universe(req["late"], register=True)
+    if len(classes) != len(req["hn"]) or names != req["names"]:
+        raise MachineryError("the child process sees another type registry")
+    out = {
+        "code_names": [c._ufl_handler_name_ for c in classes],
+        "got": [observe_dispatch(classes, idx, case, req["hn"]) for case in req["cases"]],
+    }
+    print(LATE_MARK + json.dumps(out), flush=True)
+
+
+def observe_late(late, names, hn, cases):
+    """observe_dispatch for `cases` in a fresh interpreter in which the late types are registered."""
+    import os
+    import subprocess
+    import sys
+
+    root = os.path.dirname(os.path.dirname(os.path.dirname(os.path.abspath(__file__))))
+    p = subprocess.run(
+        [sys.executable, "-c", "from vf.checks.c19 import late_child; late_child()"],
+        input=json.dumps({"late": late, "names": names, "hn": hn, "cases": cases}), capture_output=True, text=True, cwd=root, timeout=600,
+    )  # fmt: skip
+    line = next((ln for ln in p.stdout.splitlines() if ln.startswith(LATE_MARK)), None)
+    if p.returncode != 0 or line is None:
+        raise MachineryError(f"late-type child process failed (exit {p.returncode}):\n" + "\n".join(p.stderr.splitlines()[-12:]))
+    return json.loads(line[len(LATE_MARK) :])
+
+
+def dispatch_tlc(seed, tier, libs):
+    """Export the class graph, the class names, the attribute names of the algorithm base classes and of the
+    library's handler tables and the cases; TLC checks the laws and prints the predicted tables."""
+    classes, idx, bases, mro, names = dispatch_universe()
+    late = late_types(names, seed, tier)
+    classes, idx, bases, mro, names = dispatch_universe(late)
+    if any(not n.isascii() or not n.isalnum() for n in names):
+        raise MachineryError("a class name is not an alphanumeric CamelCase name: extend HandlerResolution.IsName")
+    pre = base_attrs()
+    cases = dispatch_cases(len(names), mro, seed, tier)
+    alphabet, maxlen = NAME_ALPHABET[tier]
+
+    def attrset(v):
+        return "{" + ", ".join(tlc.tla(chars(a)) for a in v) + "}"
+
     mc = (
         "---- MODULE MC_HandlerResolution ----\nEXTENDS HandlerResolution\n"
-        f"MCBases == {tlc.tla(bases)}\nMCCases == {tlc.tla([set(c) for c in cases])}\n"
-        f"MCPreMF == {tlc.tla(set(pre['MF']))}\nMCPreTR == {tlc.tla(set(pre['TR']))}\nMCPreDT == {tlc.tla(set(pre['DT']))}\n====\n"
+        f"MCBases == {tlc.tla(bases)}\nMCNames == {tlc.tla([chars(n) for n in names])}\n"
+        f"MCCases == {tlc.tla([set(c) for c in cases])}\n"
+        f"MCAttrCases == <<{', '.join(attrset(lib['attrs']) for lib in libs)}>>\n"
+        f"MCAttrMF == {attrset(pre['MF'])}\nMCAttrTR == {attrset(pre['TR'])}\nMCAttrDT == {attrset(pre['DT'])}\n"
+        f"MCAlphabet == {tlc.tla(set(alphabet))}\n====\n"
     )
-    res = tlc.run("HandlerResolution", DISPATCH_CFG, mc_text=mc, mc_name="MC_HandlerResolution", workers=1, timeout=600, env={"JAVA_TOOL_OPTIONS": JAVA_OPTS})
-    return res, cases, pre
+    res = tlc.run("HandlerResolution", DISPATCH_CFG % maxlen, mc_text=mc, mc_name="MC_HandlerResolution", workers=1, timeout=600, env={"JAVA_TOOL_OPTIONS": JAVA_OPTS})
+    return res, cases, late, libs
+
+
+def shape_of(name):
+    """The shape of a class name: A = capitals, a = lower-case letters, 0 = digits, runs collapsed."""
+    s = "".join("A" if ch.isupper() else "a" if ch.islower() else "0" if ch.isdigit() else "?" for ch in name)
+    return "".join(ch for i, ch in enumerate(s) if i == 0 or s[i - 1] != ch)
 
 
 def run_dispatch(ctx, tlc_out, selftest=False):
     from ufl.core.expr import Expr
 
-    res, cases, pre = tlc_out
-    classes, idx, bases, mro = dispatch_universe()
+    res, cases, late, libs = tlc_out
+    classes, idx, bases, mro, names = dispatch_universe(late)
+    n_real = len(classes)
     ctx.add_tlc(res)
     require_ok(res, "HandlerResolution")
     rows = tlc.decode_prints(res)
     lin = [r for r in rows if "lin" in r]
+    nrow = [r for r in rows if "names" in r]
     rows = {r["case"]: r for r in rows if "case" in r}
-    if len(lin) != 1 or len(rows) != len(cases):
-        raise MachineryError(f"HandlerResolution printed {len(rows)} rows for {len(cases)} cases")
+    if len(lin) != 1 or len(nrow) != 1 or len(rows) != len(cases) + len(libs):
+        raise MachineryError(f"HandlerResolution printed {len(rows)} rows for {len(cases)} + {len(libs)} cases")
     # the exported graph reproduces Python's own linearisation of every class (UFL types only)
     if lin[0]["lin"] != mro:
-        badc = [classes[i].__name__ for i in range(len(classes)) if lin[0]["lin"][i] != mro[i]]
+        badc = [names[i] for i in range(len(names)) if lin[0]["lin"][i] != mro[i]]
         raise MachineryError(f"C3 linearisation of the exported class graph differs from __mro__ for {badc}")
-    if selftest:
-        row = rows[2]
-        t = cases[1][0] - 1
-        row["mf"][t] = 0 if row["mf"][t] else 1
-    n_bad_selftest = 0
-    engines = {"mf": "MultiFunction", "tr": "Transformer", "dt": "DAGTraverser"}
-    if pre["DT"] != pre["MF"]:
+    hn = ["".join(x) for x in nrow[0]["names"]]  # the handler names of the spec
+    if len(hn) != len(names) or len(set(hn)) != len(hn):
+        raise MachineryError("handler names of the spec: one distinct name per type expected")
+    if nrow[0]["predt"] != nrow[0]["premf"]:
         raise MachineryError("DAGTraverser predefines handler names that MultiFunction does not: extend HandlerResolution.Row")
-    for k, case in enumerate(cases, 1):
-        got = observe_dispatch(classes, idx, case)
-        ctx.traces(1)
-        row = rows[k]
-        row["dt"] = row["mf"]  # same predefined set (checked above and by the module's ASSUME)
-        for key, engine in engines.items():
-            for i, c in enumerate(classes):
+    # the cases that involve a late type are observed in a child process that registers the late types
+    late_k = [k for k, case in enumerate(cases) if any(t > n_real for t in case)]
+    if selftest:
+        late_k = late_k[:40]
+    with cf.ThreadPoolExecutor(max_workers=1) as tex:
+        f_late = tex.submit(observe_late, late, names, hn, [cases[k] for k in late_k])
+        if selftest:
+            row = rows[2]
+            t = cases[1][0] - 1
+            row["mf"][t] = 0 if row["mf"][t] else 1
+            k0 = late_k[0]
+            rows[k0 + 1]["tr"][cases[k0][-1] - 1] = 0  # a late type with its own handler: predicted "none bound"
+        n_bad_selftest = {"registered": 0, "late": 0}
+        engines = {"mf": "MultiFunction", "tr": "Transformer", "dt": "DAGTraverser"}
+        code_names = [c._ufl_handler_name_ for c in classes]
+        for i in range(n_real):
+            if code_names[i] != hn[i]:
+                ctx.count(f"handler_name_differs:{names[i]}:code-{code_names[i]}:spec-{hn[i]}")
+
+        def judge(k, got, code_names, where):
+            case, row = cases[k], rows[k + 1]
+            if row["d"] != case:
+                raise MachineryError(f"row {k + 1} of HandlerResolution is not case {k + 1}")
+            ctx.traces(1)
+            row["dt"] = row["mf"]  # same predefined set (checked above and by the module's ASSUME)
+            for key, engine in engines.items():
+                for i in range(len(got[key])):
+                    ctx.evaluated()
+                    want, have = row[key][i], got[key][i]
+                    if want and want != i + 1:
+                        ctx.distinct(f"disp|{key}|{i}|{want}|{len(case)}")
+                    if i >= n_real and want == i + 1:
+                        ctx.distinct(f"late|{key}|{names[i]}|{len(case)}")
+                    if want == have:
+                        continue
+                    is_expr = i >= n_real or issubclass(classes[i], Expr)
+                    if selftest:
+                        n_bad_selftest["late" if i >= n_real else "registered"] += is_expr
+                        continue
+                    wn = names[want - 1] if want else "ufl_type"
+                    hname = names[have - 1] if have > 0 else "ufl_type" if have == 0 else "<an attribute that is no handler of the table>"
+                    if not is_expr:
+                        # base forms whose MRO passes through non-UFL bases: not expression types
+                        ctx.count("baseform_types_resolved_differently")
+                        ctx.count(f"baseform_dispatch:{engine}:{names[i]}:got-{hname}-nearest-{wn}")
+                        continue
+                    by_name = bool(want) and key != "dt" and code_names[want - 1] != hn[want - 1]
+                    who = names[i] if i < n_real else "late-type:" + shape_of(names[i])
+                    ctx.violation(
+                        f"C19:dispatch:{engine}:{who}" + (":handler-name" if by_name else ""),
+                        f"{engine} subclass defining {[hn[t - 1] for t in case]} binds {names[i]}{where} to {hname}; nearest ancestor with a handler is {wn}"
+                        + (f" (handler name of {wn}: {hn[want - 1]!r}, the code derives {code_names[want - 1]!r})" if by_name else ""),
+                        {"kind": "dispatch", "engine": key, "class": names[i], "case": [names[t - 1] for t in case], "expected": wn,
+                         "handlers": [hn[t - 1] for t in case], "late": late if max([i + 1] + case) > n_real else []},
+                    )  # fmt: skip
+
+        for k, case in enumerate(cases):
+            if not any(t > n_real for t in case):
+                judge(k, observe_dispatch(classes, idx, case, hn), code_names, "")
+        # the handler tables of the library itself
+        n_lib_proper = 0
+        for j, lib in enumerate(libs):
+            row = rows[len(cases) + j + 1]
+            defs = [t for t in row["d"] if t <= n_real]
+            got = observe_library(classes, lib, defs, hn)
+            ctx.traces(1)
+            for i in range(n_real):
                 ctx.evaluated()
-                want, have = row[key][i], got[key][i]
+                want, have = row[lib["engine"]][i], got[i]
                 if want and want != i + 1:
-                    ctx.distinct(f"disp|{key}|{i}|{want}|{len(case)}")
-                if want == have:
+                    n_lib_proper += 1
+                    ctx.distinct(f"lib|{lib['name']}|{i}|{want}")
+                if want == have or selftest:
                     continue
-                if selftest:
-                    n_bad_selftest += issubclass(c, Expr)
+                wn = names[want - 1] if want else "ufl_type"
+                hname = names[have - 1] if have > 0 else "ufl_type" if have == 0 else "<other attribute>"
+                if not issubclass(classes[i], Expr):
+                    ctx.count(f"baseform_dispatch:{lib['name']}:{names[i]}:got-{hname}-nearest-{wn}")
                     continue
-                wn = classes[want - 1].__name__ if want else "ufl_type"
-                hn = classes[have - 1].__name__ if have else "ufl_type"
-                if not issubclass(c, Expr):
-                    # base forms whose MRO passes through non-UFL bases: not expression types
-                    ctx.count("baseform_types_resolved_differently")
-                    ctx.count(f"baseform_dispatch:{engine}:{c.__name__}:got-{hn}-nearest-{wn}")
-                    continue
+                by_name = bool(want) and code_names[want - 1] != hn[want - 1]
                 ctx.violation(
-                    f"C19:dispatch:{engine}:{c.__name__}",
-                    f"{engine} subclass defining {[classes[t - 1]._ufl_handler_name_ for t in case]} binds {c.__name__} to {hn}; nearest ancestor with a handler is {wn}",
-                    {"kind": "dispatch", "engine": key, "class": c.__name__, "case": [classes[t - 1].__name__ for t in case], "expected": wn},
-                )
+                    f"C19:dispatch:library-table:{lib['cls'].__name__}:{names[i]}" + (":handler-name" if by_name else ""),
+                    f"{lib['name']} (handlers {[hn[t - 1] for t in defs]}) binds {names[i]} to its handler {hn[have - 1] if have > 0 else 'ufl_type' if have == 0 else '<other attribute>'!r}; "
+                    f"the nearest ancestor for which it defines a handler is {wn} ({hn[want - 1] if want else 'ufl_type'!r})",
+                    {"kind": "library-dispatch", "table": lib["name"], "class": names[i], "defs": [names[t - 1] for t in defs],
+                     "handlers": [hn[t - 1] for t in defs], "expected": wn},
+                )  # fmt: skip
+        if not libs or n_lib_proper == 0:
+            raise MachineryError("no handler table of the library resolves a type to a proper ancestor: the library cases are vacuous")
+        child = f_late.result()
+    if child["code_names"][:n_real] != code_names:
+        raise MachineryError("the child process derives other handler names for the import-time types")
+    for i in range(n_real, len(names)):
+        if child["code_names"][i] != hn[i]:
+            ctx.count(f"handler_name_differs:late-type:{shape_of(names[i])}")
+    for k, got in zip(late_k, child["got"]):
+        judge(k, got, child["code_names"], " [late types registered]")
     ctx.count("dispatch_cases", len(cases))
-    ctx.count("dispatch_types", len(classes))
+    ctx.count("dispatch_cases_with_late_types", len(late_k))
+    ctx.count("dispatch_types", n_real)
+    ctx.count("dispatch_late_types", len(late))
+    ctx.count("library_handler_tables", len(libs))
     k = min(400, len(cases))
     bound = {}
     for cn in ("Sum", "Coefficient", "Cofunction"):
-        w = rows[k]["mf"][idx[_cls(cn)] - 1]
-        bound[cn] = classes[w - 1]._ufl_handler_name_ if w else "ufl_type"
-    ctx.sample({"handlers_defined": [classes[t - 1]._ufl_handler_name_ for t in cases[k - 1]], "multifunction_binds": bound})
+        w = rows[k]["mf"][names.index(cn)]
+        bound[cn] = hn[w - 1] if w else "ufl_type"
+    ctx.sample({"handlers_defined": [hn[t - 1] for t in cases[k - 1]], "multifunction_binds": bound})
+    ctx.sample({"handler_names_of_the_spec": {n: hn[names.index(n)] for n in ["Atan2", "ExprList", "EQ"] + [x[0] for x in late[:6]]}})
     return n_bad_selftest
-
-
-def _cls(name):
-    import ufl.classes
-
-    return getattr(ufl.classes, name)
 
 
 # ==========================================================================================
@@ -1344,34 +1641,43 @@ def run(ctx, args):
         "keyword arguments); results and the log of rule invocations (node class, ordered context, result) are "
         "compared with the model whose cache key is (node, full context), and the same rules as one MultiFunction "
         "+ vcache/rcache per context under map_expr_dag must give the same results with each (class, context) "
-        "handled once. A dt case is counted as distinct non-trivial when rules ran under at least two contexts."
+        "handled once. A dt case is counted as distinct non-trivial when rules ran under at least two contexts. "
+        "Dispatch: the type universe is the import-time registry plus late types registered with @ufl_type in a "
+        "child process (fixed shapes of class names - digits after letters, capitals after digits, runs of capitals - "
+        "and seeded random CamelCase names); a handler table is a set of attribute names, built under the handler "
+        "names that the SPEC derives from the class names (TypeName -> type_name), for all single ancestors, pairs of "
+        "ancestors and random subsets of ancestors of every type; the name-dispatched handler tables of the library "
+        "itself (every MultiFunction / Transformer subclass in ufl's modules) are further cases, their handlers "
+        "overridden by loggers. A late-type case is counted when a late type is bound to its own handler."
     )
     ctx.assume("expressions are finite acyclic ufl expression DAGs whose == / hash are structural (ufl.exprequals), including its documented side effect that a successful == between distinct equal operators makes them share one operand tuple")
     ctx.assume("sibling order is not part of the property: pre_traversal, post_traversal and the cutoff variants visit operands right-to-left, unique_post_traversal left-to-right; the spec's recursive definitions use the as-coded sibling order and the parent/child order is checked separately")
     ctx.assume("handler tables are MultiFunction subclasses: reuse_if_untouched everywhere, rename of one terminal (as cutoff and as post handler), constant result for one operator type (post handler and cutoff handler); traversal `visited` arguments are left at their default")
     ctx.assume("context arguments: DAGTraverser.__call__(node, **kwargs) accepts keyword arguments only (no positional context in this version); MultiFunction / map_expr_dags pass no context to handlers, so a context is one MultiFunction object with its own vcache/rcache (the pattern of apply_restrictions.py / remove_component_tensors.py). Keyword values are small ints (hashable, == is identity of value); the order of the keywords is part of the as-coded cache key (two orders of the same keywords are two entries with equal results), the model keeps it")
+    ctx.assume("handler names: class names are alphanumeric CamelCase; the handler name of TypeName is type_name, a new word starting at every capital that follows a lower-case letter or a digit (HandlerResolution.HandlerName; e.g. Atan2 -> atan2, as the library's own tables spell it); late types are direct or indirect subtypes of Operator, Terminal or MathFunction and are all registered before the first algorithm object is built (later registration is property C20)")
     ctx.assume("nearest ancestor = first class of the C3 linearisation of the UFL class graph (checked equal to __mro__ restricted to UFL types) that defines a handler; Transformer predefines `terminal`; BaseForm types (not Expr) are reported separately")
     ctx.assume("CPython set/dict lookups call stored_key.__eq__(probe) only for distinct objects with equal hash (identity is tested first)")
 
     env = Env.get()
+    libs = library_tables()  # imports every ufl module: before the pools start
     cfgs = configs(ctx.tier)
     tasks = [(c, s, c["workers"], False) for c in cfgs for s in range(c.get("shards", c["nshards"]))]
     if selftest:
         tasks = tasks[:1]
     pool_size = 4 if ctx.tier == "quick" else 6
     results = []
-    n_self_bad = 0
+    n_self_bad = {}
     t0 = time.time()
     with cf.ProcessPoolExecutor(max_workers=pool_size) as ex, cf.ThreadPoolExecutor(max_workers=2) as tex:
         futs = [ex.submit(shard_task, t) for t in tasks]  # worker processes are forked here
         # meanwhile, in this process: the two small TLC runs (threads wait for the subprocesses),
         # the bigger DAGs and the dispatch observations
-        f_disp = tex.submit(dispatch_tlc, ctx.seed, ctx.tier)
+        f_disp = tex.submit(dispatch_tlc, ctx.seed, ctx.tier, libs)
         f_live = None if selftest else tex.submit(liveness_tlc)
         if not selftest:
             big_dags(ctx, env, 300 if ctx.tier == "quick" else 20000)
             print(f"[C19] larger random DAGs done at {time.time() - t0:.1f}s", flush=True)
-        n_self_bad += run_dispatch(ctx, f_disp.result(), selftest=selftest)
+        n_self_bad = run_dispatch(ctx, f_disp.result(), selftest=selftest)
         print(f"[C19] dispatch done at {time.time() - t0:.1f}s", flush=True)
         if f_live is not None:
             res = f_live.result()
@@ -1446,9 +1752,9 @@ def run(ctx, args):
         for fp, what, rep in acc["violations"]:
             ctx.violation(fp, what, rep)
     if selftest:
-        if n_self_bad < 1:
-            raise MachineryError("selftest: a corrupted dispatch prediction was accepted")
-        print(f"selftest: corrupted dispatch prediction rejected ({n_self_bad} mismatch)")
+        if min(n_self_bad.values()) < 1:
+            raise MachineryError(f"selftest: a corrupted dispatch prediction was accepted ({n_self_bad})")
+        print(f"selftest: corrupted dispatch predictions rejected (mismatches: {n_self_bad})")
         return
     # the judged DAGs and rule tables tell the full cache key from every weakened one (else: vacuous)
     for k, v in weak_seen.items():
@@ -1517,15 +1823,31 @@ def replay(ctx, doc):
         if terms != r["predicted"]:
             ctx.violation(doc["fingerprint"], "replay: Transformer.visit result differs", r)
     elif r["kind"] == "dispatch":
-        classes, idx, bases, mro = dispatch_universe()
-        byname = {c.__name__: idx[c] for c in classes}
-        case = sorted(byname[n] for n in r["case"])
-        got = observe_dispatch(classes, idx, case)
-        have = got[r["engine"]][byname[r["class"]] - 1]
-        hn = classes[have - 1].__name__ if have else "ufl_type"
-        print("replay dispatch", r["engine"], r["class"], "defined", r["case"], "bound", hn, "expected", r["expected"])
-        if hn != r["expected"]:
-            ctx.violation(doc["fingerprint"], f"replay: bound {hn}, expected {r['expected']}", r)
+        late = r.get("late", [])
+        classes, idx, bases, mro, names = dispatch_universe(late)
+        case = sorted(names.index(n) + 1 for n in r["case"])
+        # the handler names of the spec for the types of the case (recorded); no other handler can be returned
+        hn = [f"?{i}" for i in range(len(names))]
+        for n, h in zip(r["case"], r.get("handlers") or [c._ufl_handler_name_ for c in classes if c.__name__ in r["case"]]):
+            hn[names.index(n)] = h
+        got = observe_late(late, names, hn, [case])["got"][0] if late else observe_dispatch(classes, idx, case, hn)
+        have = got[r["engine"]][names.index(r["class"])]
+        bound = names[have - 1] if have > 0 else "ufl_type" if have == 0 else "<other attribute>"
+        print("replay dispatch", r["engine"], r["class"], "defined", r["case"], "as", [hn[t - 1] for t in case], "bound", bound, "expected", r["expected"])
+        if bound != r["expected"]:
+            ctx.violation(doc["fingerprint"], f"replay: bound {bound}, expected {r['expected']}", r)
+    elif r["kind"] == "library-dispatch":
+        classes, idx, bases, mro, names = dispatch_universe()
+        lib = next(x for x in library_tables() if x["name"] == r["table"])
+        hn = [f"?{i}" for i in range(len(names))]
+        for n, h in zip(r["defs"], r["handlers"]):
+            hn[names.index(n)] = h
+        got = observe_library(classes, lib, [names.index(n) + 1 for n in r["defs"]], hn)
+        have = got[names.index(r["class"])]
+        bound = names[have - 1] if have > 0 else "ufl_type" if have == 0 else "<other attribute>"
+        print("replay library table", r["table"], "class", r["class"], "bound", bound, "expected", r["expected"])
+        if bound != r["expected"]:
+            ctx.violation(doc["fingerprint"], f"replay: bound {bound}, expected {r['expected']}", r)
 
 
 def main(argv=None):
